@@ -275,6 +275,8 @@ func (t CollectionPath) Of(i Item) Item {
 			it = t.ofActor(a)
 			return nil
 		})
+		// the actor's own collection must not be replaced by the generic Object lookup below
+		return it
 	}
 	OnObject(i, func(o *Object) error {
 		it = t.ofObject(o)
